@@ -10,7 +10,7 @@ ID = 'C02'
 LEVEL = 'exploration'
 BUDGET = {'quick': (12000, 80.0), 'thorough': (200000, 1500.0)}
 RULE = ('seeded swarm generation of 2-3 real J1939-22 stacks; per originator 1-8 RTS/CTS and 0-4 BAM messages (61..20000 bytes) '
-        'submitted within a short window, one or both directions, plus send_pgn calls beyond capacity while sessions are in flight, and in some runs send_pgn calls made from inside the stack\'s own k-th transmission; '
+        'submitted within a short window, one or both directions, plus send_pgn calls beyond capacity while sessions are in flight, and in some runs send_pgn calls made from inside the stack\'s own k-th transmission or the acknowledgement callback, and application calls parked at their k-th library source line inside send_pgn for 20 us .. 15 ms; '
         'non-trivial = at least one FD transport session ran; distinct = distinct scenario JSON')
 FAULT_COUNTERS = {'application thread parked at a source line inside send_pgn (pre-emption)': 'preempted_calls', "application send_pgn from inside the stack's own transmission": 'reentrant_submissions', 'send_pgn beyond capacity (refused)': 'refused_at_capacity', 'traffic in both directions (runs)': 'bidirectional_runs'}
 REQUIRED_PROBES = ['cmdt_msgs', 'bam_msgs', 'refused_at_capacity', 'bidirectional_runs', 'len_mod60_zero', 'reentrant_submissions', 'preempted_calls']
